@@ -20,6 +20,12 @@ REPO = "/repo"
 
 # (property, relative file, old text, new text, substring of the unit expected to fail)
 MUTANTS = [
+    ("C02", "unified_planning/engines/sequential_simulator.py", "        new_state = state.make_child(updated_values)\n        for si in self._state_invariants:\n            if not self._se.evaluate(si, new_state).bool_constant_value():",
+     "        new_state = state.make_child(updated_values)\n        for si in self._state_invariants:\n            if not self._se.evaluate(si, state).bool_constant_value():", "apply_unsafe"),
+    ("C02", "unified_planning/engines/sequential_simulator.py", "                if fluent is not None:\n                    assert value is not None\n                    updated_values[fluent] = value\n\n        new_state",
+     "                if fluent is not None:\n                    assert value is not None\n                    updated_values.setdefault(fluent, value)\n\n        new_state", "apply_unsafe"),
+    ("C02", "unified_planning/engines/sequential_simulator.py", "                fluent, value = self._evaluate_effect(\n                    effect, state, updated_values, assigned_fluent, em\n                )\n                if fluent is not None:\n                    assert value is not None\n                    updated_values[fluent] = value\n\n        new_state",
+     "                fluent, value = self._evaluate_effect(\n                    effect, state, dict(updated_values), assigned_fluent, em\n                )\n                if fluent is not None:\n                    assert value is not None\n                    updated_values[fluent] = value\n\n        new_state", "apply_unsafe"),
     ("C30", "unified_planning/engines/compilers/ks0_compiler.py", "            return literal.arg(0), True\n", "            return literal.arg(0), False\n", "_literal_parts"),
     ("C30", "unified_planning/engines/compilers/ks0_compiler.py", "        return fluent_exp if is_negative else expression_manager.Not(fluent_exp)\n",
      "        return expression_manager.Not(fluent_exp) if is_negative else fluent_exp\n", "_negate_literal"),
